@@ -9,7 +9,10 @@ From Precond Require Import C07.Layout C07.Model C07.ModelTF C07.Infra C07.Proof
      C07.ProofsTF C07.Witness.
 Open Scope Z_scope.
 
-(* Distributed Shampoo, all modes: after init, ANY number of updates leaves the state layout (tree,
+(* The parameters' dtype (ds_pdt / tf_pdt / the [d] of sm3: float32, bfloat16, ...) is a field of the
+   configuration, so every statement below holds for every parameter dtype.
+
+   Distributed Shampoo, all modes: after init, ANY number of updates leaves the state layout (tree,
    static metadata, leaf shapes, dtypes) exactly the initial one; the only other possible outcome
    is the explicit rejection "all layers are too small for compression_rank" (site 6); an internal
    error is impossible.  For every configuration, parameter tree, rank and number of updates. *)
@@ -43,13 +46,13 @@ Proof. exact ds_init_no_internal. Qed.
 Print Assumptions c07_init_rejects_explicitly.
 
 (* SM3 and Tearfree (Shampoo / Sketchy second-order state, grafting, momentum, lr) *)
-Theorem c07_layout_fixed_point_sm3 : forall t l k,
-  sm3_init t = Ok l -> iter_upd (sm3_update t) k l = Ok l.
+Theorem c07_layout_fixed_point_sm3 : forall d t l k,
+  sm3_init d t = Ok l -> iter_upd (sm3_update repaired d t) k l = Ok l.
 Proof. exact sm3_layout_fixed_point. Qed.
 Print Assumptions c07_layout_fixed_point_sm3.
 
 Theorem c07_layout_fixed_point_tearfree : forall c t l k,
-  shapes_pos c t -> tf_init repaired c t = Ok l -> iter_upd (tf_update c t) k l = Ok l.
+  shapes_pos c t -> tf_init repaired c t = Ok l -> iter_upd (tf_update repaired c t) k l = Ok l.
 Proof. exact tf_layout_fixed_point. Qed.
 Print Assumptions c07_layout_fixed_point_tearfree.
 
